@@ -211,13 +211,37 @@ def classify(doc, body, where, code=""):
     raise RuntimeError("%s: unknown way of walking the document: %s" % (where, sorted(kinds)))
 
 
-def post_processing(body):
-    """does the body run remove_overlaps over ALL the lints it collected (a document-wide step)?"""
-    return bool(re.search(r"\bremove_overlaps\(", body))
+def post_processing(body, where="?"):
+    """does the body run remove_overlaps over ALL the lints it collected (a document-wide step)?
+    The only shape known (Model/C12Merge.then_remove_overlaps): ONE call, on the collected vector, as the last
+    statement before the vector is returned."""
+    n = len(re.findall(r"\bremove_overlaps\(", body))
+    if n == 0:
+        return False
+    if n != 1 or not re.search(r"remove_overlaps\(&mut (\w+)\);\s*\1\s*\}\s*$", body.strip()):
+        raise RuntimeError("%s: remove_overlaps is not the single last step over the collected lints" % where)
+    return True
+
+
+def check_merge_macro(files):
+    """merge_linters! must still be: collect every sub-linter's lints in order, remove_overlaps, return
+    (Model/C12Merge.merge_rule)"""
+    code = files.get("merge_linters.rs")
+    if code is None:
+        raise RuntimeError("merge_linters.rs not found")
+    m = re.search(r"fn lint\(&mut self, document: &Document\) -> Vec<Lint>\s*\{(.*?)\}\s*fn description", code, re.S)
+    if not m:
+        raise RuntimeError("merge_linters.rs: fn lint of the macro not found")
+    body = re.sub(r"\s+", " ", m.group(1)).strip()
+    want = ("let mut lints = Vec::new(); $( lints.extend(self.[< $linter:snake >].lint(document)); )* "
+            "remove_overlaps(&mut lints); lints")
+    if body != want:
+        raise RuntimeError("merge_linters.rs: the macro's lint body has an unknown shape: %s" % body)
 
 
 def generate(repo):
     files = rule_files(repo)
+    check_merge_macro(files)
     structs, n_pat, n_keys = registry(files, repo)
     # the blanket impl every PatternLinter gets
     pl = files["pattern_linter.rs"]
@@ -234,7 +258,7 @@ def generate(repo):
             if impl[0] == "linter":
                 d, b = lint_body(impl[2], impl[1])
                 shape, whole = classify(d, b, impl[1], files[impl[1]])
-                if post_processing(b):
+                if post_processing(b, impl[1]):
                     shape = "(ThenRemoveOverlaps %s)" % shape
                 seen[ty] = (impl[1], shape, whole, [])
             elif impl[0] == "pattern":
